@@ -79,7 +79,11 @@ class ConstantModel(StatelessModel):
         """
         if self.features is None:
             raise LeaspyModelInputError("The model was not properly initialized.")
-        values = [individual_parameters[f] for f in self.features]
+        # one constant per feature: a scalar (personalization output, JSON file) or a 1-element list (CSV file)
+        values = [
+            torch.as_tensor(individual_parameters[f], dtype=torch.float32).reshape(-1)[0].item()
+            for f in self.features
+        ]
         # `timepoints` may be a single time-point (scalar) or any array-like of time-points
         n_timepoints = torch.as_tensor(timepoints).reshape(-1).shape[0]
         return torch.tensor([[values] * n_timepoints], dtype=torch.float32)
